@@ -16,7 +16,6 @@
 
 from __future__ import annotations
 
-from collections.abc import Iterator
 from types import NotImplementedType
 from typing import Any
 
@@ -39,12 +38,17 @@ class IonqNativeGatesetBase(cirq.TwoQubitCompilationTargetGateset):
         super().__init__(*gates, unroll_circuit_op=False)
         self.atol = atol
 
-    def _decompose_single_qubit_operation(self, op: cirq.Operation, _) -> Iterator[cirq.OP_TREE]:
+    def _decompose_single_qubit_operation(
+        self, op: cirq.Operation, _
+    ) -> NotImplementedType | cirq.OP_TREE:
+        if not cirq.has_unitary(op):
+            return NotImplemented
         qubit = op.qubits[0]
         mat = cirq.unitary(op)
-        yield cirq.global_phase_operation(-1j)
-        for gate in self.single_qubit_matrix_to_native_gates(mat):
-            yield gate(qubit)
+        return [
+            cirq.global_phase_operation(-1j),
+            *(gate(qubit) for gate in self.single_qubit_matrix_to_native_gates(mat)),
+        ]
 
     def _decompose_two_qubit_operation(
         self, op: cirq.Operation, _
